@@ -224,3 +224,35 @@ def skeleton(v, stop_at):
     if stop_at == 0 or not is_list(v):
         return "."
     return [skeleton(x, stop_at - 1) for x in v]
+
+
+# ------------------------------------------------------------------ coordinates (C03, C06)
+
+def coords(v, depth):
+    """[(path, leaf)] for every position `depth` list levels down (leaf may be None); a missing list higher up
+    contributes nothing.  path = tuple of indexes."""
+    out = []
+
+    def rec(x, path, d):
+        if d == 0:
+            out.append((path, x))
+            return
+        if x is None:
+            return
+        if not is_list(x):
+            raise Refuse("value shallower than depth")
+        for i, y in enumerate(x):
+            rec(y, path + (i,), d - 1)
+    rec(v, (), depth)
+    return out
+
+
+def groups(v, depth, k):
+    """leaves grouped along axis k: {key: [(kth coordinate, leaf), ...] in increasing kth coordinate}"""
+    g = {}
+    for path, leaf in coords(v, depth):
+        key = path[:k] + path[k + 1:]
+        g.setdefault(key, []).append((path[k], leaf))
+    for key in g:
+        g[key].sort(key=lambda t: t[0])
+    return g
